@@ -98,6 +98,13 @@ theorem lvr_exc (hw : WF G) (p : Proc) (e : Exc) (hb : Base env p)
     have := lr_fin hw p e hb he
     exact ⟨this.inv, this.asked, by rw [this.nolock]; simpa using hl, ne_wWrite_of_nolock this.nolock⟩
 
+theorem lvr_exc_prew (hw : WF G) (p : Proc) (e : Exc) (he : Exc.caughtBy G.l.caught e = true)
+    (hm : G.w.mergesExisting = true) : PreW env f0 (leaveRead env G p (.exc e)) := by
+  simp only [leaveRead]
+  split
+  · simp [PreW]
+  · exact lr_prew hw p e he hm
+
 theorem lvr_normal (hw : WF G) (p : Proc) (hb : Base env p) (hs : ∀ v, p.loaded = some v → Sound env v) :
     LvOut env G p (leaveRead env G p .normal) ∧
     (G.w.mergesExisting = true → ∀ v, p.loaded = some v → env.unpickle p.buf = .ok v → f0 = some p.buf →
@@ -109,12 +116,10 @@ theorem lvr_normal (hw : WF G) (p : Proc) (hb : Base env p) (hs : ∀ v, p.loade
     intro _ v hv hu hf
     right; simp only [PreW]; exact ⟨hf, v, hv, hu⟩
   · rename_i hl
-    have := lc_fin hw p hb hs
+    have := lc_fin (f0 := f0) hw p hb hs
     refine ⟨⟨this.1.inv, this.1.asked, by rw [this.1.nolock]; simpa using hl, ne_wWrite_of_nolock this.1.nolock⟩, ?_⟩
     intro hm v hv hu _
-    rcases this.2 hm v hv hu with h | h
-    · exact Or.inl h
-    · right; unfold PreW; rw [h]; trivial
+    exact this.2 hm v hv hu
 
 attribute [local irreducible] runQueries finishLoader loaderRaise loaderChecks leaveRead writerRaise
 
@@ -211,7 +216,7 @@ theorem step_lRelease (hw : WF G) (hin : StepIn env G f0 i sh p) (c : Cont) (hpc
   cases c with
   | normal =>
     have hpi : ∀ v, p.loaded = some v → Sound env v := by have := hin.inv.pc; simpa [PcInv, hpc] using this
-    have := lc_fin hw p hb hpi
+    have := lc_fin (f0 := f0) hw p hb hpi
     refine out_release hin this.1 hl ?_
     intro hm h0 hp
     have hp : f0 = some p.buf ∧ ∃ v, p.loaded = some v ∧ env.unpickle p.buf = .ok v := by
@@ -219,11 +224,11 @@ theorem step_lRelease (hw : WF G) (hin : StepIn env G f0 i sh p) (c : Cont) (hpc
     obtain ⟨hf, v, hv, hu⟩ := hp
     rcases this.2 hm v hv hu with hg | hg
     · left; intro b hb'; rw [h0, hf] at hb'; cases hb'; exact hg
-    · right; unfold PreW; simp only; rw [hg]; trivial
+    · exact Or.inr hg
   | exc e =>
     have hpi : Exc.caughtBy G.l.caught e = true := by have := hin.inv.pc; simpa [PcInv, hpc] using this
     refine out_release hin (lr_fin hw p e hb hpi) hl ?_
-    intro _ _ hp; simp [PreW, hpc] at hp
+    intro hm _ _; exact Or.inr (lr_prew hw p e hpi hm)
 
 theorem step_lRemoveStale (hw : WF G) (hin : StepIn env G f0 i sh p) (hpc : p.pc = .lRemoveStale)
     {sh' : Sh} {p' : Proc}
@@ -250,12 +255,13 @@ theorem step_hExists (hw : WF G) (hin : StepIn env G f0 i sh p) (hpc : p.pc = .h
   have hb := hin.inv.toBase
   have hpi : p.loaded = none ∧ G.l.handlerRemoves = true := by have := hin.inv.pc; simpa [PcInv, hpc] using this
   have hl : inLock G p.pc = false := by simp [hpc, inLock]
-  have hfile : ∀ p', G.w.mergesExisting = true → sh.file = f0 → PreW env f0 p → FileGood env G sh.file ∨ PreW env f0 p' := by
-    intro _ _ _ hp; simp [PreW, hpc] at hp
   split
   · refine out_same hin ⟨⟨hb.ans, hb.mem, hb.keys⟩, by simpa [PcInv] using hpi⟩ rfl (by rw [hl]; simp [inLock])
-      (by simp) (hfile _)
-  · exact out_same_fin hin (fl_fin hw p hb (by simp [hpi.1])) hl (hfile _)
+      (by simp) ?_
+    intro _ _ _; right; simp [PreW]
+  · rename_i hf
+    refine out_same_fin hin (fl_fin hw p hb (by simp [hpi.1])) hl ?_
+    intro _ _ _; left; intro b hb'; simp [hb'] at hf
 
 theorem step_hRemove (hw : WF G) (hin : StepIn env G f0 i sh p) (hpc : p.pc = .hRemove)
     {sh' : Sh} {p' : Proc}
@@ -268,10 +274,11 @@ theorem step_hRemove (hw : WF G) (hin : StepIn env G f0 i sh p) (hpc : p.pc = .h
   · simp only [Option.some.injEq, Prod.mk.injEq] at h
     obtain ⟨rfl, rfl⟩ := h
     exact out_remove hin (fl_fin hw p hb (by simp [hpi.1])) hl
-  · simp only [hw.hrt hpi.2, if_true, Option.some.injEq, Prod.mk.injEq] at h
+  · rename_i hf
+    simp only [hw.hrt hpi.2, if_true, Option.some.injEq, Prod.mk.injEq] at h
     obtain ⟨rfl, rfl⟩ := h
     refine out_same_fin hin (fl_fin hw p hb (by simp [hpi.1])) hl ?_
-    intro _ _ hp; simp [PreW, hpc] at hp
+    intro _ _ _; left; rw [hf]; exact FileGood.none
 
 theorem noPreW_file {p' : Proc} (hp : ¬ PreW env f0 p) :
     G.w.mergesExisting = true → sh.file = f0 → PreW env f0 p → FileGood env G sh.file ∨ PreW env f0 p' :=
@@ -318,7 +325,7 @@ theorem step_wOpenR (hw : WF G) (hin : StepIn env G f0 i sh p) (hpc : p.pc = .wO
   · simp only [Option.some.injEq, Prod.mk.injEq] at h
     obtain ⟨rfl, rfl⟩ := h
     refine out_same hin ⟨⟨hb.ans, hb.mem, hb.keys⟩, ?_⟩ rfl ?_ (by simp) (noPreW_file hnp)
-    · simpa [PcInv] using hw.mfnf hpi
+    · simpa [PcInv] using hw.mfnf
     · rw [hpc]; simp [inLock]
   · rename_i b hf
     simp only [Option.some.injEq, Prod.mk.injEq] at h
@@ -360,16 +367,17 @@ theorem step_wUnpickle (hw : WF G) (hin : StepIn env G f0 i sh p) (hpc : p.pc = 
   · rename_i v hu
     rw [hu] at hgood
     split at h
-    · simp only [Option.some.injEq, Prod.mk.injEq] at h
-      obtain ⟨rfl, rfl⟩ := h
-      refine out_same hin ⟨⟨hb.ans, hb.mem, hb.keys⟩, ?_⟩ rfl ?_ (by simp) (noPreW_file hnp)
-      · simpa [PcInv] using hw.mte hpi.1
-      · rw [hpc]; simp [inLock]
     · rename_i hty
+      have hmt : G.w.mergeTypeChecked = true := by
+        simp only [Bool.and_eq_true] at hty; exact hty.1
       simp only [Option.some.injEq, Prod.mk.injEq] at h
       obtain ⟨rfl, rfl⟩ := h
-      have hty : v.ty = env.expectedTy := by simpa [hw.mtc hpi.1] using hty
-      refine out_same hin ⟨⟨hb.ans, merged_ok hb.mem (hgood hty), hb.keys⟩, ?_⟩ rfl ?_ (by simp) (noPreW_file hnp)
+      refine out_same hin ⟨⟨hb.ans, hb.mem, hb.keys⟩, ?_⟩ rfl ?_ (by simp) (noPreW_file hnp)
+      · simpa [PcInv] using hw.mte hpi.1 hmt
+      · rw [hpc]; simp [inLock]
+    · simp only [Option.some.injEq, Prod.mk.injEq] at h
+      obtain ⟨rfl, rfl⟩ := h
+      refine out_same hin ⟨⟨hb.ans, merged_ok hb.mem hgood, hb.keys⟩, ?_⟩ rfl ?_ (by simp) (noPreW_file hnp)
       · simp [PcInv]
       · rw [hpc]; simp [inLock]
 
@@ -390,7 +398,7 @@ theorem step_wTrunc (he : EnvOK env G) (hin : StepIn env G f0 i sh p) (hpc : p.p
     · exact Or.inr ⟨rfl, fun _ _ h => absurd h hnp⟩
     · left; intro b hb'; simp only [Option.some.injEq] at hb'; subst hb'; exact he.empty
 
-theorem written_good (hm : ∀ e ∈ p.mem, EntOK env e) : Good env (written env p) := fun _ => hm
+theorem written_good (hm : ∀ e ∈ p.mem, EntOK env e) : Good env (written env p) := hm
 
 theorem step_wWrite (hw : WF G) (he : EnvOK env G) (hin : StepIn env G f0 i sh p) (hpc : p.pc = .wWrite)
     {sh' : Sh} {p' : Proc}
@@ -479,5 +487,69 @@ theorem crashStep_out (he : EnvOK env G) (hin : StepIn env G f0 i sh p) {n : Nat
           exact he.dump _ _ (written_good hb.mem)
         · exact Or.inr ⟨rfl, fun _ _ _ => by simp [PreW]⟩
       · exact Or.inr ⟨rfl, fun _ _ _ => by simp [PreW]⟩
+
+/-- the next action of process `i` fails with an I/O error -/
+theorem failStep_out (hw : WF G) (he : EnvOK env G) (hin : StepIn env G f0 i sh p) {e : Exc} {n : Nat}
+    {sh' : Sh} {p' : Proc}
+    (h : failStep env G e n sh p = some (sh', p')) : StepOut env G f0 i sh p sh' p' := by
+  simp only [failStep] at h
+  split at h
+  · cases h
+  · rename_i hio
+    have hio : ioExcs.contains e = true := by simpa using hio
+    have hb := hin.inv.toBase
+    have hLC := hw.ioL e hio
+    have hWC := hw.ioW e hio
+    split at h
+    · -- lAcquire: the lock is not taken, the handler runs
+      rename_i hpc
+      simp only [Option.some.injEq, Prod.mk.injEq] at h
+      obtain ⟨rfl, rfl⟩ := h
+      refine out_same_fin hin (lr_fin hw p e hb hLC) (by simp [hpc, inLock]) ?_
+      intro hm _ _; exact Or.inr (lr_prew hw p e hLC hm)
+    · -- lOpen
+      rename_i hpc
+      simp only [Option.some.injEq, Prod.mk.injEq] at h
+      obtain ⟨rfl, rfl⟩ := h
+      have := lvr_exc hw p e hb hLC
+      refine out_same hin this.inv this.asked (by rw [this.lock, hpc]; simp [inLock]) this.nw ?_
+      intro hm _ _; exact Or.inr (lvr_exc_prew hw p e hLC hm)
+    · -- wAcquire
+      rename_i hpc
+      simp only [Option.some.injEq, Prod.mk.injEq] at h
+      obtain ⟨rfl, rfl⟩ := h
+      exact out_same_fin hin (wr_fin hw p e hb hWC) (by simp [hpc, inLock]) (noPreW_file (by simp [PreW, hpc]))
+    · -- wOpenR
+      rename_i hpc
+      simp only [leaveWrite, hw.lw, if_true, Option.some.injEq, Prod.mk.injEq] at h
+      obtain ⟨rfl, rfl⟩ := h
+      refine out_same hin ⟨⟨hb.ans, hb.mem, hb.keys⟩, by simpa [PcInv] using hWC⟩ rfl (by rw [hpc]; simp [inLock])
+        (by simp) (noPreW_file (by simp [PreW, hpc]))
+    · -- wTrunc
+      rename_i hpc
+      simp only [leaveWrite, hw.lw, if_true, Option.some.injEq, Prod.mk.injEq] at h
+      obtain ⟨rfl, rfl⟩ := h
+      refine out_same hin ⟨⟨hb.ans, hb.mem, hb.keys⟩, by simpa [PcInv] using hWC⟩ rfl (by rw [hpc]; simp [inLock])
+        (by simp) (noPreW_file (by simp [PreW, hpc]))
+    · -- wWrite: a prefix of the dump may have reached the file
+      rename_i hpc
+      simp only [leaveWrite, hw.lw, if_true, Option.some.injEq, Prod.mk.injEq] at h
+      obtain ⟨rfl, rfl⟩ := h
+      have hl : inLock G p.pc = true := by simp [hpc, inLock]
+      have hli := hin.lock.mp hl
+      have hnp : ¬ PreW env f0 p := by simp [PreW, hpc]
+      refine ⟨⟨⟨hb.ans, hb.mem, hb.keys⟩, by simpa [PcInv] using hWC⟩, rfl, ?_, ?_, ?_, ?_, ?_⟩
+      · simp [inLock, hli]
+      · intro j _; exact Iff.rfl
+      · intro h'; simp at h'
+      · intro h'; rw [hl] at h'; cases h'
+      · simp only
+        split
+        · exact Or.inr ⟨rfl, fun _ _ h => absurd h hnp⟩
+        · split
+          · left; intro b hb'; simp only [Option.some.injEq] at hb'; subst hb'
+            exact he.dump _ _ (written_good hb.mem)
+          · exact Or.inr ⟨rfl, fun _ _ h => absurd h hnp⟩
+    · cases h
 
 end SpsdkVerif.DbCache.Sched
